@@ -201,3 +201,87 @@ def inventory_v(repo):
 if __name__ == "__main__":
     repo = sys.argv[1] if len(sys.argv) > 1 else "/repo"
     sys.stdout.write(inventory_v(repo))
+
+
+# ---------------------------------------------------------------------------------------
+# literal tables: named targets (input/compatibility.py::update_target)
+def _const_eval(node, env):
+    """evaluate a literal arithmetic expression exactly (Fractions); None when not literal"""
+    from fractions import Fraction as Fr
+    if isinstance(node, ast.Constant) and isinstance(node.value, (int, float)) and not isinstance(node.value, bool):
+        return Fr(repr(node.value)) if isinstance(node.value, float) else Fr(node.value)
+    if isinstance(node, ast.Name) and node.id in env:
+        return env[node.id]
+    if isinstance(node, ast.UnaryOp) and isinstance(node.op, ast.USub):
+        v = _const_eval(node.operand, env)
+        return None if v is None else -v
+    if isinstance(node, ast.BinOp):
+        a, b = _const_eval(node.left, env), _const_eval(node.right, env)
+        if a is None or b is None:
+            return None
+        if isinstance(node.op, ast.Add):
+            return a + b
+        if isinstance(node.op, ast.Sub):
+            return a - b
+        if isinstance(node.op, ast.Mult):
+            return a * b
+        if isinstance(node.op, ast.Div) and b != 0:
+            return a / b
+    return None
+
+
+def targets(repo):
+    """[(name, Z, A)] read off the if/elif chain of update_target; fail-closed: an unreadable branch
+    yields (name, None, None)"""
+    src = open(os.path.join(repo, "src/yadism/input/compatibility.py")).read()
+    tree = ast.parse(src)
+    fn = [n for n in tree.body if isinstance(n, ast.FunctionDef) and n.name == "update_target"][0]
+    out = []
+    rejects_unknown = False
+    chain = [s for s in fn.body if isinstance(s, ast.If)]
+    node = None
+    for s in chain:
+        t = s.test
+        if isinstance(t, ast.Compare) and isinstance(t.left, ast.Name) and t.left.id == "target" and isinstance(t.ops[0], ast.Eq):
+            node = s
+    while node is not None:
+        t = node.test
+        name = None
+        if (isinstance(t, ast.Compare) and isinstance(t.left, ast.Name) and t.left.id == "target"
+                and len(t.ops) == 1 and isinstance(t.ops[0], ast.Eq) and isinstance(t.comparators[0], ast.Constant)):
+            name = t.comparators[0].value
+        env, za = {}, (None, None)
+        for st in node.body:
+            if isinstance(st, ast.Assign) and len(st.targets) == 1:
+                tg = st.targets[0]
+                if isinstance(tg, ast.Name):
+                    v = _const_eval(st.value, env)
+                    if v is not None:
+                        env[tg.id] = v
+                elif (isinstance(tg, ast.Subscript) and isinstance(tg.slice, ast.Constant) and tg.slice.value == "TargetDIS"
+                      and isinstance(st.value, ast.Dict)):
+                    d = {k.value: _const_eval(v, env) for k, v in zip(st.value.keys, st.value.values) if isinstance(k, ast.Constant)}
+                    za = (d.get("Z"), d.get("A"))
+        out.append((name, za[0], za[1]))
+        nxt = node.orelse
+        if len(nxt) == 1 and isinstance(nxt[0], ast.If):
+            node = nxt[0]
+        else:
+            rejects_unknown = any(isinstance(s, ast.Raise) for s in nxt)
+            node = None
+    return out, rejects_unknown
+
+
+def tables_v(repo):
+    tg, rej = targets(repo)
+
+    def q(v):
+        return "None" if v is None else "(Some (%d # %d))" % (v.numerator, v.denominator)
+    L = ["(* generated by tools/tables.py from src/yadism/input/compatibility.py — do not edit *)",
+         "From Coq Require Import List String QArith.", "Import ListNotations.", "Open Scope string_scope.", "",
+         "(* (name, Z, A) of every named target; None = the translator could not read the branch *)",
+         "Definition target_table : list (string * option Q * option Q) := ["]
+    L.append(";\n".join('  ("%s", %s, %s)' % (n if n is not None else "?", q(z), q(a)) for n, z, a in tg))
+    L.append("].")
+    L.append("Definition unknown_target_rejected : bool := %s." % ("true" if rej else "false"))
+    return "\n".join(L) + "\n"
